@@ -31,13 +31,14 @@ Inductive rawN :=
 | NLBrace | NRBrace | NComment | NError.
 
 Inductive rawS :=
-| SLiteral | SDQuote | SInterp
+| SLiteral (lone_cr : bool)         (* a lone carriage return is left after normalisation *)
+| SDQuote | SInterp
 | SEscChar (valid : bool)             (* escape_char(c) is Some *)
 | SEscAscii (valid : bool)            (* escape_ascii(code) is Some *)
 | SError.
 
 Inductive rawM :=
-| MLiteral
+| MLiteral (lone_cr : bool)
 | MCandEnd (n : Z)                    (* quote then percents: n = slice length *)
 | MCandInterp (n : Z)                 (* percents then brace *)
 | MQCandInterp (n : Z)                (* quote, percents, brace *)
@@ -169,7 +170,8 @@ Definition handle_string_token (st : state) (t : rawS) : outcome (state * emit) 
   | SEscChar false => ret st (Err EInvalidEscape)
   | SEscAscii false => ret st (Err EInvalidAscii)
   | SError => ret st (Err EGeneric)
-  | SLiteral => ret st (Tok TStrLiteral)
+  | SLiteral true => ret st (Err EGeneric)      (* since 4ff7631; a debug assertion failed before *)
+  | SLiteral false => ret st (Tok TStrLiteral)
   end.
 
 (* split_candidate_interp: literal of length [n - percent_count], Interpolation buffered *)
@@ -197,7 +199,8 @@ Definition handle_multistr_token (st : state) (t : mtoken) : outcome (state * em
       else if n =? pc then do st' <- leave_indstr st; ret st' (Tok TMEnd)
       else ret st (Tok (TMLiteral (Some n)))
   | FromLogos MError => ret st (Err EGeneric)
-  | FromLogos MLiteral => ret st (Tok (TMLiteral None))
+  | FromLogos (MLiteral true) => ret st (Err EGeneric)
+  | FromLogos (MLiteral false) => ret st (Tok (TMLiteral None))
   end.
 
 (* [Lexer::next], one call, given what the sub-lexers see at the current position.  In multistring
@@ -225,4 +228,4 @@ Fixpoint run (st : state) (input : list sym) : outcome (list emit * state) :=
 (* the regexes guarantee these sizes (a multiline start has length >= 3, candidates >= 2) *)
 Definition sym_wf (s : sym) : bool :=
   (match sN s with NMultiStart d | NSymStart d => 1 <=? d | _ => true end)
-  && (match sM s with MCandEnd n | MCandInterp n | MQCandInterp n => 0 <=? n | MLiteral | MError => true end).
+  && (match sM s with MCandEnd n | MCandInterp n | MQCandInterp n => 0 <=? n | MLiteral _ | MError => true end).
